@@ -11,6 +11,10 @@ RULE_MODULES = {
     'PARA': 'rules.p_para',
     'RF5': 'rules.rf5_null',
     'RF6': 'rules.rf6_index',
+    'RF4': 'rules.rf4_lock',
+    'TMR': 'rules.p_tmr',
+    'PDO': 'rules.p_pdo',
+    'SYNC': 'rules.p_sync',
 }
 
 
@@ -28,7 +32,7 @@ def run_rule(rule, ctx, tier):
 
 PROPERTIES = {
     'C01': {
-        'rules': ['RF6', 'RF5', 'SDO'],
+        'rules': ['RF6', 'RF5', 'SDO', 'TMR'],
         'technique': 'interval abstract interpretation (widening/narrowing, guard refinement, parameter and field '
                      'invariants) for every constant-extent subscript; non-null dataflow with bounded disjunction for every '
                      'dereference of a nullable location; guard-before-use for SDO continuation handlers',
@@ -41,15 +45,18 @@ PROPERTIES = {
                        'frames, undefined arithmetic, driver-fault sequences',
     },
     'C08': {
-        'rules': ['RF5'],
-        'technique': 'non-null dataflow with bounded disjunction over the timer list heads and links',
-        'explanation': 'RF5 on CO_TMR.{Use,Elapsed,Free,Acts} and the Next/Action links: the delete-while-elapsed clause '
+        'rules': ['RF4', 'RF5', 'TMR'],
+        'technique': 'lock-depth dataflow over co_tmr.c (helpers inherit the depth of all call sites); non-null '
+                     'dataflow with bounded disjunction over the timer list heads and links',
+        'explanation': 'RF4: lock/unlock balanced on every path, every store to a list head or event link and every load of '
+                       'a head that is kept or dereferenced happens at lock depth 1, the interrupt-level service takes no '
+                       'lock and only moves the head event; RF5 on CO_TMR.{Use,Elapsed,Free,Acts} and the Next/Action links: the delete-while-elapsed clause '
                        'needs COTmrRemove/COTmrDelete/COTmrInsert to tolerate an event that is not in the used list, an '
                        'emptied event in the elapsed list and an exhausted event pool.',
         'not_decided': 'interleaving semantics under preemption',
     },
     'C13': {
-        'rules': ['RF5', 'RF6'],
+        'rules': ['RF5', 'RF6', 'PDO'],
         'technique': 'interval analysis of mapping-table subscripts, non-null dataflow on the synchronous-RPDO table',
         'explanation': 'RF6: every subscript of CO_RPDO.Map/Size (including the dummy expansion Map[on+dummy]) and of the '
                        'SYNC tables is in range; RF5: Sync.RPdo[i] is tested before it is dereferenced.',
@@ -139,7 +146,7 @@ PROPERTIES = {
         'not_decided': 'crash-point durability and RAM/NVM equality',
     },
     'C10': {
-        'rules': ['RF3', 'NMT'],
+        'rules': ['RF3', 'NMT', 'TMR'],
         'explanation': 'Static typestate analysis of every timer handle (create/delete/store sites, all CFG paths, '
                        'callee summaries): no armed heartbeat handle is overwritten (H1) and no function leaves a '
                        'handle holding a deleted id (H2, all handles: a stale id is how another service deletes the '
@@ -153,13 +160,13 @@ PROPERTIES = {
         'not_decided': 'timeout timing',
     },
     'C12': {
-        'rules': ['RF3', 'RF6'],
+        'rules': ['RF3', 'RF6', 'PDO'],
         'explanation': 'Timer-handle typestate for CO_TPDO.EvTmr/InTmr and the verified invariant '
                        '"(Flags & I) == 0 <=> InTmr released" (establish / arm / release obligations).',
         'not_decided': 'emission timing multiset',
     },
     'C16': {
-        'rules': ['RF3'],
+        'rules': ['RF3', 'SYNC', 'PDO'],
         'explanation': 'Timer-handle typestate for CO_SYNC.Tmr including release before re-initialisation on reset.',
         'not_decided': 'period exactness',
     },
